@@ -211,19 +211,32 @@ def _lift2_(i, a, b, f, elem, node, name="pw"):
         if x is not None:
             check_live(x, node)
     ref = A or B
+    bc = {}
     if A is not None and B is not None:
         if A.ndim != B.ndim:
             raise Unsupported("broadcasting between arrays of different rank", node)
         for d in range(A.ndim):
+            if isinstance(B.shape[d], int) and B.shape[d] == 1 and not (isinstance(A.shape[d], int) and A.shape[d] == 1):
+                bc[("B", d)] = True
+                continue
+            if isinstance(A.shape[d], int) and A.shape[d] == 1:
+                bc[("A", d)] = True
+                ref = B
+                continue
             i.safe("broadcast", to_z3(A.shape[d], Int) == to_z3(B.shape[d], Int), node)
     if ref.ndim == 1:
         ga = (lambda k: z3.Select(A.data, k)) if A is not None else (lambda k: a)
         gb = (lambda k: z3.Select(B.data, k)) if B is not None else (lambda k: b)
         alts = [g for g, X in ((ga, A), (gb, B)) if X is not None]
         return define1(i, ref.shape[0], elem, lambda k: f(ga(k), gb(k)), name, alts=alts)
-    ga = (lambda r, c: A.at(r, c)) if A is not None else (lambda r, c: a)
-    gb = (lambda r, c: B.at(r, c)) if B is not None else (lambda r, c: b)
-    return define2(i, ref.shape[0], ref.shape[1], elem, lambda r, c: f(ga(r, c), gb(r, c)), name)
+    def acc(X, tag, x):
+        if X is None:
+            return lambda r, c: x
+        return lambda r, c: X.at(0 if bc.get((tag, 0)) else r, 0 if bc.get((tag, 1)) else c)
+    ga, gb = acc(A, "A", a), acc(B, "B", b)
+    shape0 = (A if bc.get(("B", 0)) or A is not None and not bc.get(("A", 0)) else B).shape[0] if (A is not None and B is not None) else ref.shape[0]
+    shape1 = (A if bc.get(("B", 1)) or A is not None and not bc.get(("A", 1)) else B).shape[1] if (A is not None and B is not None) else ref.shape[1]
+    return define2(i, shape0, shape1, elem, lambda r, c: f(ga(r, c), gb(r, c)), name)
 
 
 def _num(x, y):
@@ -256,6 +269,9 @@ def _binop(i, op, a, b, node):
     if isinstance(op, ast.Div):
         return _lift2(i, a, b, lambda x, y: cv(x) / cv(y), res, node, opkey="Div")
     if isinstance(op, ast.Pow) and isinstance(b, int) and b == 2:
+        if res == Real:
+            from .np_real import sq
+            return _lift2(i, a, b, lambda x, y: sq(cv(x)), res, node, opkey="Sq")
         return _lift2(i, a, b, lambda x, y: cv(x) * cv(x), res, node)
     raise Unsupported("array operator %s" % type(op).__name__, node)
 
